@@ -94,6 +94,31 @@ Fixpoint emit_make_steps (fx : bool) (steps : list step) : option (list mrule) :
       end
   end.
 
+(* ---- the ORDER of the recipe lines (writer.py multitarget_rule:  recipe = listify(recipe) + [Silent([touch, $@])] ).
+   The recipe of every rule [emit_make_step] registers, as the list of its command lines in order:
+     RcStep   the command line(s) of the step itself (the only thing that can fail),
+     RcTouch  touch $@  (the stamp of a multi-output step),
+     RcNoop   the no-op  @:  of the repaired rule  outs: stamp.
+   [] = no recipe.  Same length and order as the rule list of emit_make_step.  [tb] = true describes the recipe order
+   touch-first ([touch $@] + recipe), which is NOT what the code under test writes: it is the variant refuted by
+   C03_touch_before_command_refuted; the harness (stage W:emit) always compares the real Rule objects with tb = false. *)
+Inductive rcmd := RcStep | RcTouch | RcNoop.
+
+Definition multitarget_recipes (tb fx : bool) (targets : list out) (recipe : bool) : option (list (list rcmd)) :=
+  let own := if recipe then [RcStep] else [] in
+  match targets with
+  | [] => None
+  | [_] => Some [own]
+  | _ :: _ :: _ => Some [if fx then [RcNoop] else []; if tb then RcTouch :: own else own ++ [RcTouch]]
+  end.
+
+Definition emit_make_recipes (tb fx : bool) (st : step) : option (list (list rcmd)) :=
+  match s_kind st with
+  | KCompile | KLink | KCommand | KBuildStep => multitarget_recipes tb fx (s_outputs st) true
+  | KCopyFile => match s_outputs st with [] => None | _ => Some [[RcStep]] end
+  | KAlias => match s_outputs st with [] => None | _ => Some [[]] end
+  end.
+
 (* pre_rules_hook make_all_rule; post_rules_hook make_test_rule, make_install_rule *)
 Definition make_all_rule (sc : script) : list mrule := [mkM [NF (sc_all sc)] (fs_ (sc_defaults sc)) [] false true].
 Definition make_test_rules (sc : script) : list mrule :=
